@@ -42,7 +42,9 @@ func TestVerifSim(t *testing.T) {
 			"mutations (append, conflicting-suffix overwrite, hard state, compaction snapshot, snapshot install, ReplaceSnapshot, MarkApplied, MarkConfigApplied), " +
 			"some issued concurrently from several scopes so the group writer batches them, plus range reads, clean reopen and crashes. Short histories (3-8 steps) " +
 			"take a crash clone after EVERY mutating FS call (and around every snapshot chunk write and at every step boundary) and reopen every distinct clone " +
-			"with p=0/50/100 of unsynced data kept; long histories sample. Non-trivial = at least 3 successful mutations including a snapshot save or a " +
+			"with p=0/50/100 of unsynced data kept; long histories sample. raftlog.Options (SnapshotChunkSize incl. 0=default and 1 byte, WriteBatchMaxWait/Items, " +
+			"SnapshotGCGrace) are re-drawn at every clean reopen and crash restart, and every crash clone is reopened with a chunk size that cycles through all values, " +
+			"so persisted snapshots must be readable under options other than the ones they were written with. Non-trivial = at least 3 successful mutations including a snapshot save or a " +
 			"conflicting overwrite, AND (a crash clone was reopened and compared, or a clean reopen happened, or two scopes shared one WAL sync).",
 		Assumptions: []string{
 			"vfs.MemFS.CrashClone is a faithful model of power loss for files behind Pebble's VFS (synced data survives; unsynced blocks and directory entries survive with probability p)",
@@ -93,14 +95,15 @@ func drawCfg(r *simkit.Run) config {
 	}
 	c.NoFaults = tp.Intn(4) == 0
 	c.Torn = tp.Intn(2) == 1
-	c.Diverged = tp.Intn(4) == 3
-	if os.Getenv("RLS_NO_DIVERGED_INSTALL") != "" {
-		c.Diverged = false // development knob: mute the install-over-diverged-log scenario
-	}
+	c.Diverged = tp.Intn(2) == 1
 	// 64 KiB never fills in these histories (no flush except at recovery);
 	// the small sizes force flushes, WAL rotation and compactions mid-history.
 	c.MemTable = []uint64{64 << 10, 16 << 10, 4 << 10, 8 << 10}[tp.Intn(4)]
-	c.Chunk = []uint64{1 << 20, 16, 64, 5}[tp.Intn(4)]
+	// Options the DB is FIRST opened with; they are re-drawn at every reopen and
+	// crash restart (openOpts.redraw), and every crash clone is reopened with yet
+	// another chunk size: whatever a persisted artefact depends on must be read
+	// back from the artefact, never from the option of the current incarnation.
+	c.Chunk = chunkSizes[tp.Intn(len(chunkSizes))]
 	c.Wait = []time.Duration{5 * time.Millisecond, time.Millisecond, 50 * time.Millisecond}[tp.Intn(3)]
 	c.Items = []int{128, 2, 1, 3}[tp.Intn(4)]
 	c.BigData = tp.Intn(4) == 3
@@ -181,6 +184,11 @@ type world struct {
 	lastDir *dirTree // previous copy of snapDir (content reuse in readDirTree)
 	db      *raftlog.DB
 	hookFS  vfs.FS
+	opts    openOpts // options of the live incarnation
+	stepNo  int
+	// lastVerifyOpts: options the most recent crash clone was reopened with (for messages)
+	lastVerifyOpts  openOpts
+	lastCrashedOpts openOpts // options of the incarnation that clone was taken from
 
 	mu          sync.Mutex
 	tracking    bool
@@ -316,11 +324,100 @@ func (w *world) newTmpDir() string {
 	return filepath.Join(w.tmp, fmt.Sprintf("d%d", w.tmpSeq))
 }
 
-func (w *world) open(fs vfs.FS, snapDir string) (*raftlog.DB, error) {
+// chunkSizes are the Options.SnapshotChunkSize values in play: larger than any
+// payload (benign, tape value 0), small, tiny, and 0 = the package default.
+var chunkSizes = []uint64{1 << 20, 16, 64, 5, 0, 1}
+
+// openOpts are the raftlog.Options of one incarnation of the DB. None of them
+// may change what an already persisted artefact means: the chunk layout of a
+// snapshot is recorded in its manifest, the batching knobs only shape commits,
+// the GC grace only delays removal of unreferenced directories.
+type openOpts struct {
+	chunk uint64
+	wait  time.Duration
+	items int
+	grace time.Duration
+}
+
+func (o openOpts) String() string {
+	return fmt.Sprintf("chunk=%d wait=%v items=%d gcgrace=%v", o.chunk, o.wait, o.items, o.grace)
+}
+
+// redrawOpts draws the options of the next incarnation from the tape; value 0
+// keeps the previous setting.
+func (w *world) redrawOpts() {
+	tp := w.r.Tape
+	if k := tp.Intn(len(chunkSizes) + 1); k > 0 {
+		w.opts.chunk = chunkSizes[k-1]
+	}
+	if k := tp.Intn(4); k > 0 {
+		w.opts.wait = []time.Duration{5 * time.Millisecond, time.Millisecond, 50 * time.Millisecond}[k-1]
+	}
+	if k := tp.Intn(5); k > 0 {
+		w.opts.items = []int{128, 2, 1, 3}[k-1]
+	}
+	if k := tp.Intn(3); k > 0 {
+		// with a grace the fake clock (year 2000) never outruns the real mtime of
+		// a directory, so unreferenced snapshot directories simply pile up
+		w.opts.grace = []time.Duration{0, time.Hour}[k-1]
+	}
+}
+
+// verifyOpts are the options a crash clone is reopened with: the live ones,
+// but a chunk size that walks through chunkSizes with the step number and the
+// clone variant (a pure function of the history, so a failure replays).
+func (w *world) verifyOpts(p int) openOpts {
+	o := w.opts
+	o.chunk = chunkSizes[(w.stepNo*3+p/50)%len(chunkSizes)]
+	return o
+}
+
+// probeOpts records which options differ between the previous incarnation and
+// the live one.
+func (w *world) probeOpts(prev openOpts) {
+	r := w.r
+	if prev.chunk != w.opts.chunk {
+		r.Probe("reopen_chunk_size_changed")
+		for _, ref := range w.refs {
+			if n := uint64(len(ref.snap().Data)); n > 0 {
+				r.Probe("reopen_chunk_size_changed_with_snapshot")
+				eff := func(c uint64) uint64 {
+					if c == 0 {
+						return 8 << 20
+					}
+					return c
+				}
+				if n > min(eff(prev.chunk), eff(w.opts.chunk)) {
+					r.Probe("reopen_chunk_size_changed_relayout") // the payload would be cut differently now
+				}
+				break
+			}
+		}
+		if w.opts.chunk == 0 {
+			r.Probe("reopen_default_chunk_size")
+		}
+	}
+	if prev.wait != w.opts.wait || prev.items != w.opts.items {
+		r.Probe("reopen_batch_options_changed")
+	}
+	if prev.grace != w.opts.grace {
+		r.Probe("reopen_gc_grace_changed")
+	}
+}
+
+// effChunk is the chunk size snapshots are written with right now.
+func (w *world) effChunk() uint64 {
+	if w.opts.chunk == 0 {
+		return 8 << 20 // raftlog's defaultSnapshotChunkSize
+	}
+	return w.opts.chunk
+}
+
+func (w *world) open(fs vfs.FS, snapDir string, o openOpts) (*raftlog.DB, error) {
 	w.hookFS = fs
 	return raftlog.Open("/raft", raftlog.Options{
-		SnapshotPath: snapDir, SnapshotChunkSize: w.cfg.Chunk,
-		WriteBatchMaxWait: w.cfg.Wait, WriteBatchMaxItems: w.cfg.Items,
+		SnapshotPath: snapDir, SnapshotChunkSize: o.chunk, SnapshotGCGrace: o.grace,
+		WriteBatchMaxWait: o.wait, WriteBatchMaxItems: o.items,
 	})
 }
 
@@ -484,7 +581,8 @@ func (w *world) run() {
 	if trackOpen {
 		w.begin(sp)
 	}
-	db, err := w.open(w.wrapLive(), w.snapDir)
+	w.opts = openOpts{chunk: w.cfg.Chunk, wait: w.cfg.Wait, items: w.cfg.Items}
+	db, err := w.open(w.wrapLive(), w.snapDir, w.opts)
 	if err != nil {
 		r.Infra("initial open: %v", err)
 		return
@@ -495,10 +593,11 @@ func (w *world) run() {
 	} else {
 		synctest.Wait()
 	}
-	r.Logf("open scopes=%v", w.names)
+	r.Logf("open scopes=%v %s", w.names, w.opts)
 
 	for step := 1; step <= w.cfg.Steps && !r.Failed() && r.InfraErr == ""; step++ {
 		r.Steps++
+		w.stepNo = step
 		kind := tp.Weighted([]int{6, w.cfg.ConcBias, 2, 1})
 		switch kind {
 		case 0:
@@ -517,6 +616,7 @@ func (w *world) run() {
 	}
 	if !r.Failed() && r.InfraErr == "" {
 		// final clean reopen: everything acknowledged must be there
+		w.stepNo = w.cfg.Steps + 1
 		w.reopenStep(w.cfg.Steps + 1)
 	}
 	w.mu.Lock()
@@ -730,6 +830,8 @@ func (w *world) readStep(step int) {
 func (w *world) reopenStep(step int) {
 	r := w.r
 	sp := w.currentPlan("reopen")
+	prev := w.opts
+	w.redrawOpts()
 	w.begin(sp)
 	err := w.db.Close()
 	w.db = nil
@@ -738,7 +840,7 @@ func (w *world) reopenStep(step int) {
 		r.Failf("close-failed", "clean Close returned %v", err)
 		return
 	}
-	db, err := w.open(w.wrapLive(), w.snapDir)
+	db, err := w.open(w.wrapLive(), w.snapDir, w.opts)
 	if err != nil {
 		w.end()
 		r.Failf("reopen-failed", "Open after clean Close returned %v", err)
@@ -746,8 +848,9 @@ func (w *world) reopenStep(step int) {
 	}
 	w.db = db
 	caps := w.end()
-	r.Logf("step %d clean close + reopen", step)
+	r.Logf("step %d clean close + reopen with %s", step, w.opts)
 	r.Probe("reopen_clean")
+	w.probeOpts(prev)
 	w.witness = true
 	for si := range w.scopes {
 		if !w.checkOpen(si, "reopen-mismatch", nil, step) {
@@ -855,7 +958,12 @@ func (w *world) verifyOne(cp *capture, v variant, sp *stepPlan, force bool) []st
 		}
 		defer os.RemoveAll(dir)
 	}
-	db, err := w.open(fs, dir)
+	vo := w.verifyOpts(v.p)
+	w.lastVerifyOpts, w.lastCrashedOpts = vo, w.opts
+	if vo.chunk != w.opts.chunk {
+		r.Probe("crash_reopen_other_chunk_size")
+	}
+	db, err := w.open(fs, dir, vo)
 	if err != nil && v.p == 50 && strings.Contains(err.Error(), "pebble") {
 		// Pebble itself refused a torn clone (e.g. a new manifest marker whose
 		// unsynced directory entry survived while the manifest's did not).
@@ -979,7 +1087,7 @@ func (w *world) failCrash(cp *capture, v variant, sp *stepPlan, si int, st multi
 	for _, c := range cs {
 		fmt.Fprintf(&sb, " allowed[%s] %s\n", c.tag, c.exp)
 	}
-	fmt.Fprintf(&sb, " snapshot dir: %s", cp.dir.describe())
+	fmt.Fprintf(&sb, " reopened with %s (before the crash: %s)\n snapshot dir: %s", w.lastVerifyOpts, w.lastCrashedOpts, cp.dir.describe())
 	sig := bestMM[0]
 	if strings.HasPrefix(got.vals[0], "ERR(") || strings.HasPrefix(got.vals[6], "ERR(") {
 		sig = "read-error"
@@ -1007,13 +1115,17 @@ func (w *world) crashTo(step int, cp *capture, v variant, orig *stepPlan) {
 	for si := range w.scopes {
 		sp.before[si] = orig.candidates(cp, si)
 	}
+	prev := w.opts
+	w.redrawOpts() // the restarted process may come up with other options
+	w.lastVerifyOpts, w.lastCrashedOpts = w.opts, prev
 	w.begin(sp)
-	db, err := w.open(w.wrapLive(), w.snapDir)
+	db, err := w.open(w.wrapLive(), w.snapDir, w.opts)
 	if err != nil {
 		w.end()
-		r.FailSig("crash-open-failed", "continue", fmt.Sprintf("Open failed after crash at %q (p=%d): %v", cp.label, v.p, err), nil)
+		r.FailSig("crash-open-failed", "continue", fmt.Sprintf("Open failed after crash at %q (p=%d, options %s): %v", cp.label, v.p, w.opts, err), nil)
 		return
 	}
+	w.probeOpts(prev)
 	w.db = db
 	matched := make([]*cand, len(w.scopes))
 	for si := range w.scopes {
@@ -1037,7 +1149,7 @@ func (w *world) crashTo(step int, cp *capture, v variant, orig *stepPlan) {
 	w.crashed++
 	r.Fault("crash_continue")
 	r.Probe(fmt.Sprintf("crash_continue_p%d", v.p))
-	r.Logf("step %d CRASH p=%d recovered=%v", step, v.p, tags)
+	r.Logf("step %d CRASH p=%d recovered=%v restarted with %s", step, v.p, tags, w.opts)
 	w.verifyCaps(caps, sp)
 }
 
